@@ -169,7 +169,12 @@ func (r FileReplacer) Replace(d data.Data, cl Changelog) (*ast.File, error) {
 		file.Name.Name = r.Package
 	}
 
-	for _, m := range fd.Matches {
+	// Matches are recorded parents first. Replace them in the opposite
+	// order so that a match nested directly inside another match, such as
+	// a block that is a statement of a matched block, is rewritten in the
+	// original tree before the outer match reproduces that part of it.
+	for i := len(fd.Matches) - 1; i >= 0; i-- {
+		m := fd.Matches[i]
 		v := reflect.Indirect(reflect.ValueOf(m.parent)).FieldByName(m.name)
 		if !v.IsValid() {
 			// This is a bug in our code.
